@@ -22,7 +22,7 @@ export function create(groupList, path, data, updateMode, extra) {
   // show once the child applied them)
   const using = {}
   if (extra && extra.using) using.c = slotComp
-  if (groupList['comp/k']) using.k = space.defineComponent({ is: 'k', properties: { p: null, val: null, style: null }, template: { content: groupList['comp/k'], groupList } })
+  if (groupList['comp/k']) using.k = space.defineComponent({ is: 'k', properties: { p: null, val: null, style: null, item2: null }, template: { content: groupList['comp/k'], groupList } })
   const def = space.defineComponent({
     is: 'root' + counter,
     using: Object.keys(using).length ? using : undefined,
@@ -119,6 +119,8 @@ export function skeleton(node) {
     const marks = n._$marks
     if (marks) { const ks = Object.keys(marks).sort(); if (ks.length) parts.push('marks=' + showValue(marks)) }
     const tag = n.is !== undefined ? n.is : n.tagName
+    // the child component k: which declared property received which value (the runtime side of the name normalisation)
+    if (n instanceof ge.Component && n.is === 'k') parts.push('props=' + showValue({ p: n.data.p ?? null, val: n.data.val ?? null, item2: n.data.item2 ?? null }))
     const inner = []
     if (n.childNodes) n.childNodes.forEach((c) => walk(c, inner))
     acc.push(`<${tag}${parts.length ? ' ' + parts.join(' ') : ''}>${inner.join('')}</${tag}>`)
